@@ -105,7 +105,16 @@ impl ShardContext {
             event_id_gen: EventIdGenerator::new(),
         };
 
-        // Step 4: Recover MemTable from WAL
+        // Step 4: Seed the event id generator from the published segments (the WAL recovery
+        // below does the same for the recovered events): the generator only remembers the
+        // last id in memory, so after a restart with the wall clock at or behind the newest
+        // stored id it would hand out ids that are not greater than - or equal to - ids
+        // the shard already holds.
+        if let Some(max_id) = WalRecovery::max_published_event_id(&ctx) {
+            ctx.event_id_gen.observe(EventId::from_raw(max_id));
+        }
+
+        // Step 5: Recover MemTable from WAL
         let wal_recovery = WalRecovery::new(id, &wal_dir);
         if let Err(err) = wal_recovery.recover(&mut ctx) {
             warn!(target: "shard::context", shard_id = id, "Failed to recover from WAL: {:?}", err);
